@@ -118,6 +118,8 @@ def ref_build(x, memo=None, on_call=None):
   elif isinstance(x, collections.defaultdict):
     result = collections.defaultdict(
         x.default_factory, {k: ref_build(v, memo, on_call) for k, v in x.items()})
+  elif type(x).__name__ == 'Box' and hasattr(x, '__vchildren__'):
+    result = type(x)([ref_build(v, memo, on_call) for v in x.items])
   else:
     return x
   memo[id(x)] = (x, result)
